@@ -92,10 +92,50 @@ def run_focus(res, scratch, focus, *, tier, seed, replay):
     if summ["drift"]:
         res.notes.append("drift (real code left the implementation-level model; not a verdict): %s" % summ["drift_at"][:8])
     nbconn.validate(res, scratch, tp, scen, prop=focus)
+    run_variants(res, scratch, binary, all_scripts, focus, tier, seed)
     run_real(res, scratch, ov, focus, tier, seed)
     for s in all_scripts[:2]:
         res.sample({"script": s["id"], "threads": s["threads"],
                     "steps": [x.get("t") or "%s(%s)" % (x["env"], x.get("m")) for x in s["steps"]]})
+
+
+def run_variants(res, scratch, binary, all_scripts, focus, tier, seed):
+    """Operation variants: the same schedules of the NbConn state graph with the writers' calls replaced by Writev (the
+    bytes split into 2-3 buffers) or Sendfile (the bytes in a file), or one writer using Sendfile next to a Write.  The
+    step structure of those calls differs from Write's (several sendfile syscalls, dup of the descriptor), so the replay
+    may leave the implementation-level model (counted as variant drift, never a verdict); StreamMon decides as always."""
+    import random
+    rnd = random.Random(seed * 2654435761 % (1 << 31) + 3)
+    pool = [s for s in all_scripts if s.get("transport") == "tcp" and any(len(v) for k, v in s["threads"].items() if k != "o")]
+    rnd.shuffle(pool)
+    n = 240 if tier == "quick" else 3000
+    out = []
+    for i, s in enumerate(pool[:n]):
+        kind = ("writev", "sendfile", "mixed")[i % 3]
+        t = json.loads(json.dumps(s))
+        for name, ops in t["threads"].items():
+            if name == "o":
+                continue
+            for k, o in enumerate(ops):
+                if kind == "mixed":
+                    o["op"] = "sendfile" if (name == "w1") == (k % 2 == 0) else "write"
+                else:
+                    o["op"] = kind
+                if o["op"] == "writev":
+                    a = o["n"] // 3
+                    o["ns"] = [x for x in (a, a, o["n"] - 2 * a) if x > 0] or [o["n"]]
+        t["id"] = "%s~%s" % (s["id"], kind)
+        t["variant"] = kind
+        out.append(t)
+    if not out:
+        return
+    tp, summ = nbconn.run_driver(res, scratch, out, binary)
+    res.coverage["evaluations"] += len(out)
+    res.coverage["distinct_nontrivial"] += summ["nontrivial"]
+    res.coverage["variant_scripts"] = len(out)
+    res.coverage["variant_drift"] = summ["drift"]
+    res.coverage["sim_stuck"] = res.coverage.get("sim_stuck", 0) + summ["stuck"]
+    nbconn.validate(res, scratch, tp, {s["id"]: s for s in out}, prop=focus)
 
 
 def real_scenarios(focus, tier, seed):
